@@ -30,7 +30,7 @@ DET=""
 if git -C /repo apply --check $DST/patch.diff 2>/dev/null; then
   git -C /repo apply $DST/patch.diff
   for p in $PROPS; do
-    OUT=$(./bin/govc check --property $p 2>&1)
+    OUT=$(GOVC_NOEVIDENCE=1 ./bin/govc check --property $p 2>&1)
     rc=$?
     n=$(echo "$OUT" | grep -c '^VIOLATION')
     first=$(echo "$OUT" | grep '^VIOLATION' | head -3 | sed 's/replay=[^ ]* //')
